@@ -1,0 +1,34 @@
+//go:build verif
+
+// Package vhook provides yield points for deterministic-schedule verification.
+// With the "verif" build tag a controller installed by the verification harness
+// is told about every yield point reached by a managed goroutine and decides when
+// that goroutine may continue.
+package vhook
+
+import (
+	"sync/atomic"
+)
+
+// Controller is implemented by the verification harness.
+type Controller interface {
+	// OnYield is called by the goroutine that reached yield point id. It returns
+	// when the goroutine is allowed to continue. It must return immediately for
+	// goroutines the controller does not manage.
+	OnYield(id int)
+}
+
+type holder struct{ c Controller }
+
+var current atomic.Value // holder
+
+// SetController installs (or, with nil, removes) the controller.
+func SetController(c Controller) { current.Store(holder{c}) }
+
+// Yield marks the point immediately before a shared-memory access.
+func Yield(id int) {
+	h, _ := current.Load().(holder)
+	if h.c != nil {
+		h.c.OnYield(id)
+	}
+}
